@@ -166,9 +166,15 @@ func checkC19(c *Ctx) error {
 			return
 		}
 		defer os.RemoveAll(d)
+		// the stored operand is much shorter or much longer than the generated one (the report of the
+		// first difference walks both in chunks)
+		stored := "oldfoo"
+		if i%2 == 1 {
+			stored = strings.Repeat("x", 123)
+		}
 		writeTree(d, Tree{"regex-assembly/932100.ra": t, "regex-assembly/include/f.ra": "inc\n", "regex-assembly/include/x.ra": "inc\n",
-			"rules/REQUEST-932-X.conf": "SecRule ARGS \"@rx oldfoo\" \\\n    \"id:932100,\\\n    block\"\n"})
-		for _, args := range [][]string{{"regex", "compare", "932100"}, {"-o", "github", "regex", "compare", "--all"}, {"regex", "update", "932100"}, {"regex", "compare", "--all"}} {
+			"rules/REQUEST-932-X.conf": "SecRule ARGS \"@rx " + stored + "\" \\\n    \"id:932100,\\\n    block\"\n"})
+		for _, args := range [][]string{{"regex", "compare", "932100"}, {"-o", "github", "regex", "compare", "--all"}, {"regex", "compare", "--all"}, {"regex", "update", "932100"}} {
 			r := c.runCLIEnv(d, "", nil, 10*time.Second, append([]string{"-d", d}, args...)...)
 			atomic.AddInt64(&cli, 1)
 			atomic.AddInt64(&built, 1)
